@@ -131,7 +131,46 @@ def extra(pid, tier, seed):
                 body += iops[bad[0]] + "\n"
                 rp = cclib.write_replay(pid, seed, "repeat-" + cfg + "-n%d" % n, body)
                 violations.append(("cold trial repetition disagrees with the model", rp, False))
-    return {"coverage": {"repeated_cold_trials": reps_done}, "violations": violations, "known": [], "evaluations": evals}
+    # ---- search DIRECTED by the broken obligation: when the regenerated shared-state inventory contains items the model
+    # does not account for (class `other`: atomics, cells, `static mut`, …), the cold trials are concentrated on the
+    # algorithm family whose sources contain them — every thread's first call goes into one item of that family, 12
+    # threads behind the spin barrier, a fresh process per trial with a different stagger — for up to 75 s per
+    # configuration (a first-use race window of a few nanoseconds is hit in a few percent of such processes)
+    import time
+    fam_of = lambda f: ("groestl" if "/groestl/" in f else "blake" if "/blake/" in f else "jh" if "/jh/" in f else
+                        "skein" if "/skein/" in f or "/threefish/" in f else "chacha" if "/chacha/" in f else "*")
+    ITEM_FAM = ["groestl"] * 4 + ["blake"] * 2 + ["jh"] + ["skein"] * 3 + ["chacha"] * 5
+    suspects = sorted({fam_of("/" + it["file"]) for it in _inv.shared_inventory(cclib.REPO) if it["cls"] == "other"})
+    directed = {}
+    if suspects and not violations:
+        focus = [i for i, f in enumerate(ITEM_FAM) if f in suspects or "*" in suspects]
+        for cfg in cfgs:
+            bok, binp, _ = cclib.harness_build(cfg)
+            if not bok:
+                continue
+            header = ["cfg profile " + cclib.profile_of(cfg)]
+            op = "conc 12 %d 1" % rng.below(10**6)
+            model, _ = cclib.run_lines(cclib.DRV, header + [op])
+            t0, done, hit = time.time(), 0, None
+            while time.time() - t0 < 75 and hit is None and model and len(model) == 2:
+                iops = ["%s %d %d" % (op, f, w) for f in focus for w in (0, 1)] * 2
+                impl, _ = cclib.run_lines(binp, header + iops)
+                if impl is None or len(impl) != 1 + len(iops):
+                    break
+                done += len(iops)
+                bad = [k for k in range(len(iops)) if impl[1 + k] != model[1]]
+                if bad:
+                    hit = iops[bad[0]]
+                    a, b = impl[1 + bad[0]].split(";"), model[1].split(";")
+                    d = next((i for i in range(min(len(a), len(b))) if a[i] != b[i]), 0)
+                    body = ("# cfg=%s\n# property=%s: directed cold trials on %s (unaccounted shared state there); trial %d differs from the model\n"
+                            "# first differing (thread.item): implementation %s\n#                                 model          %s\n%s\n"
+                            % (cfg, pid, ",".join(suspects), done, (a[d] if d < len(a) else "?")[:300], (b[d] if d < len(b) else "?")[:300], hit))
+                    rp = cclib.write_replay(pid, seed, "directed-" + cfg, body)
+                    violations.append(("directed cold trial disagrees with the model", rp, False))
+            evals += done
+            directed[cfg] = {"families": suspects, "trials": done, "hit": hit}
+    return {"coverage": {"repeated_cold_trials": reps_done, "directed_cold_trials": directed}, "violations": violations, "known": [], "evaluations": evals}
 
 
 PROP = dict(
